@@ -34,6 +34,45 @@ def unwrap_calls(sv):
     return sv
 
 
+def check_renderer_families(S, ev, r1):
+    """the TypeScript-type renderer of Zod mode recurses only into itself, the schema renderers only into themselves; shared by C10-D1 and C05-D3"""
+    from c05 import resolver as _resolver
+    def all_rec(sv):
+        out = []
+        if sv is None:
+            return out
+        if sv[0] == "rec":
+            out.append(sv)
+        elif sv[0] == "cat":
+            for x in sv[1]:
+                out += all_rec(x)
+        elif sv[0] in ("rep", "list", "replace"):
+            out += all_rec(sv[1])
+        elif sv[0] == "call":
+            for x in sv[2]:
+                out += all_rec(x)
+        return out
+    for owner, entry in (("ZodVisitor", "visit_type_for_interface"), ("ZodVisitor", "visit_type"), ("ZodSchemaBuilder", "render_type")):
+        res_ = _resolver(S, owner)
+        fn_ = res_(entry)
+        if fn_ is None:
+            r1.bad(V(r1.id, "<anchor>", "missing:%s::%s" % (owner, entry), "renderer not found"))
+            continue
+        foreign = set()
+        n_rec = 0
+        for conds, sv in ev.fn_paths(fn_, None, res_):
+            for rnode in all_rec(sv):
+                n_rec += 1
+                family = {"visit_type_for_interface"} if entry == "visit_type_for_interface" else {"visit_type", "render_type"}
+                if rnode[1].split(".")[-1] not in family:
+                    foreign.add((rnode[1], rnode[2]))
+        if foreign:
+            r1.bad(V(r1.id, "%s::%s" % (owner, entry), "renderer-families-mixed:%s" % ",".join(sorted("%s(%s)" % x for x in foreign)),
+                     "%s::%s renders sub-structures with %s: the two renderings (TypeScript type / Zod schema) are mixed inside one expression" % (owner, entry, sorted(foreign))))
+        else:
+            r1.ok("%s::%s recurses only into its own family (%d recursive positions)" % (owner, entry, n_rec))
+
+
 def check(ctx):
     S = ctx.S
     rules = []
@@ -145,41 +184,7 @@ def check(ctx):
     r3.ok("scanned %d renderings of the schema builder and the Zod visitor" % (sum(len(v) for v in (zod if sb else {}).values()) + len(cust)))
     # renderer families do not mix: the TypeScript-type renderer of Zod mode recurses only into itself, the schema renderer only into itself
     # (a schema inside a type position — Channel<[z.string()]> — or a type inside a schema is neither)
-    from c05 import resolver as _resolver
-    def all_rec(sv):
-        out = []
-        if sv is None:
-            return out
-        if sv[0] == "rec":
-            out.append(sv)
-        elif sv[0] == "cat":
-            for x in sv[1]:
-                out += all_rec(x)
-        elif sv[0] in ("rep", "list", "replace"):
-            out += all_rec(sv[1])
-        elif sv[0] == "call":
-            for x in sv[2]:
-                out += all_rec(x)
-        return out
-    for owner, entry in (("ZodVisitor", "visit_type_for_interface"), ("ZodVisitor", "visit_type"), ("ZodSchemaBuilder", "render_type")):
-        res_ = _resolver(S, owner)
-        fn_ = res_(entry)
-        if fn_ is None:
-            r1.bad(V(r1.id, "<anchor>", "missing:%s::%s" % (owner, entry), "renderer not found"))
-            continue
-        foreign = set()
-        n_rec = 0
-        for conds, sv in ev.fn_paths(fn_, None, res_):
-            for rnode in all_rec(sv):
-                n_rec += 1
-                family = {"visit_type_for_interface"} if entry == "visit_type_for_interface" else {"visit_type", "render_type"}
-                if rnode[1].split(".")[-1] not in family:
-                    foreign.add((rnode[1], rnode[2]))
-        if foreign:
-            r1.bad(V(r1.id, "%s::%s" % (owner, entry), "renderer-families-mixed:%s" % ",".join(sorted("%s(%s)" % x for x in foreign)),
-                     "%s::%s renders sub-structures with %s: the two renderings (TypeScript type / Zod schema) are mixed inside one expression" % (owner, entry, sorted(foreign))))
-        else:
-            r1.ok("%s::%s recurses only into its own family (%d recursive positions)" % (owner, entry, n_rec))
+    check_renderer_families(S, ev, r1)
     # the public entries hand the structure to the renderer as they received it (no stripping of an outer Option, no pre-processing)
     for fid, f in ctx.P.fns.items():
         if not re.search(r"ZodSchemaBuilder(::<[^>]*>)?::(build_schema|build_param_schema)$", fid):
